@@ -268,6 +268,7 @@ def declare(reg):
     b = reg.properties.setdefault("C05", {}).setdefault("bounded", [])
     b.append({"name": "expunge-real-folder", "module": "harness.mboxops", "func": "Expunge"})
     b.append({"name": "uid-expunge-e2e", "module": "harness.e2e", "func": "UidExpunge"})
+    b.append({"name": "examine-read-only-e2e", "module": "harness.e2e", "func": "ExamineReadOnly"})
 
     # ---- check_new_msgs_and_flags (C02 allocation, C13 delivery) ----------------------
     reg.contract(
@@ -279,7 +280,13 @@ def declare(reg):
     T = dict(trusted=True)
     reg.contract(P, "Mailbox.get_actual_mtime", params={"mh": "ref:MH", "name": "str"}, ret="int", yields=True, **T,
                  note="A-OS: max mtime of the folder directory and its .mh_sequences")
-    reg.contract(P, "Mailbox.update_mtime_in_db", params={"self": "ref:Mailbox"}, yields=True, **T, note="assumed: SQL UPDATE of mtime only")
+    # the light-weight commit used when a resync found nothing new: its one SQL statement is pinned to its exact text (only the mtime and
+    # last_resync columns, only this mailbox's row); the body is verified to change nothing of the committed UID / flag state (ghost row)
+    reg.dynamic_dispatch[r"self\.server\.db\.execute\('UPDATE mailboxes SET mtime=\?, last_resync=\? WHERE id=\?', \(self\.mtime, self\.last_resync, self\.id\)\)"] = "Database.update_mtime_row"
+    reg.contract("<sqlite>", "Database.update_mtime_row", params={"self": "ref:Mailbox", "sql": "str", "params": "tuple[int,float,opt[int]]"}, yields=True, **T,
+                 note="A-DB: UPDATE mailboxes SET mtime=?, last_resync=? WHERE id=<this mailbox>: no other column, no other row")
+    reg.contract(P, "Mailbox.update_mtime_in_db", params={"self": "ref:Mailbox"}, raises={}, modifies=[], is_async=True, props=["C11", "C12"],
+                 note="frame: the committed row's UID state and flag rows (ghost g_db_*) and the in-memory state are untouched")
     reg.contract("<stdlib>", "MH.keys", params={"self": "ref:MH"}, ret="list[int]",
                  ensures={"asc": "asc(result)", "all": "elems(result) == self.g_keys", "count": "len(result) == card(self.g_keys)", "pos": "forall(lambda j: implies(0 <= j and j < len(result), result[j] >= 1))"},
                  **T, note="A-MH: mailbox.MH.keys() lists the message files in ascending order")
@@ -733,3 +740,102 @@ def declare_concurrency_oracles(reg):
     for pid in ("C10", "C03", "C15"):
         reg.properties.setdefault(pid, {}).setdefault("bounded", []).append(
             {"name": "uid-command-during-expunge", "module": "harness.e2e", "func": "ConcurrentExpunge"})
+
+
+def declare_rename_inbox(reg):
+    """RENAME INBOX x (C17: every message and flag intact, nothing left under the old name): the message-moving loop of _helper_rename_inbox."""
+    P = "asimap/mbox.py"
+    SEQ = "defaultdict[str,set[int]]"
+    reg.contract("<stdlib>", "MH.remove", params={"self": "ref:MH", "key": "str"},
+                 ensures={"removed": "self.g_keys == old(self.g_keys) - {int(key)}"},
+                 raises={"KeyError": "may:int(key) not in self.g_keys"}, exc_ensures={"kept": "self.g_keys == old(self.g_keys)"},
+                 modifies=["self.g_keys"], trusted=True, note="A-MH: mailbox.MH.remove deletes exactly that message file; KeyError only when it is gone")
+    MOVED = "len(new_msg_keys) == len(ghost_src) and len(uids) == len(ghost_src)"
+    MOVED_SRC = "forall(lambda j: implies(0 <= j and j < len(ghost_src), exists(lambda i: 0 <= i and i < _i and _it[i] == ghost_src[j])))"
+    MOVED_NEW = "forall(lambda j: implies(0 <= j and j < len(ghost_src), new_msg_keys[j] in new_mbox.mailbox.g_keys))"
+    MOVED_UID = "forall(lambda j: implies(0 <= j and j < len(ghost_src), uids[j] == lpre(new_mbox.next_uid) + j))"
+    MOVED_GONE = "forall(lambda j: implies(0 <= j and j < len(ghost_src), ghost_src[j] not in inbox.mailbox.g_keys))"
+    FLAGS = "forall(lambda j, s: implies(0 <= j and j < len(ghost_src), mem(sequences, s, new_msg_keys[j]) == mem(inbox.sequences, s, ghost_src[j])), 'int', 'str')"
+    NOSTRAY = "forall(lambda s, k: implies(mem(sequences, s, k), k in new_msg_keys), 'str', 'int')"
+    reg.contract(
+        P, "_helper_rename_inbox", params={"inbox": "ref:Mailbox", "new_name": "str"},
+        locals_={"new_mbox": "ref:Mailbox", "server": "ref:IMAPUserServer", "ghost_src": "list[int]", "uids": "list[int]", "new_msg_keys": "list[int]", "sequences": SEQ},
+        ghost={
+            "start_at": "uids = []",
+            "start_requires": {
+                # the mailbox that was just created is another object with its own folder
+                "distinct": "new_mbox != inbox and new_mbox.mailbox != inbox.mailbox",
+                "next-uid": "new_mbox.next_uid >= 1",
+            },
+            # ghost code: remember which inbox message each new message came from
+            "ghost_code": {"after": {r"uids = \[\]": "ghost_src = []", r"new_msg_keys\.append\(new_msg_key\)": "ghost_src.append(key)"}},
+            "cut": {"before_with": r"new_mbox\.mh_sequences_lock", "asserts": {
+                "one-new-message-per-moved-message": "len(new_msg_keys) == len(ghost_src) and len(uids) == len(ghost_src)",
+                "flags-carried": "forall(lambda j, s: implies(0 <= j and j < len(ghost_src), mem(sequences, s, new_msg_keys[j]) == mem(inbox.sequences, s, ghost_src[j])), 'int', 'str')",
+                "no-stray-flags": NOSTRAY,
+                "uids-fresh-in-order": "forall(lambda j: implies(0 <= j and j < len(uids), uids[j] == old(new_mbox.next_uid) + j)) and new_mbox.next_uid == old(new_mbox.next_uid) + len(uids)",
+                "new-keys-ascending": "asc(new_msg_keys)",
+                "nothing-left-in-inbox-folder": "forall(lambda j: implies(0 <= j and j < len(ghost_src), ghost_src[j] not in inbox.mailbox.g_keys))",
+                "inbox-flags-read-only": "forall(lambda s, k: mem(inbox.sequences, s, k) == mem(old(inbox.sequences), s, k), 'str', 'int')",
+            }},
+        },
+        loops={
+            0: {"invariant": {
+                "moved": MOVED, "moved-src": MOVED_SRC, "moved-new": MOVED_NEW, "moved-uid": MOVED_UID, "moved-gone": MOVED_GONE,
+                "flags": FLAGS,
+                "no-stray": NOSTRAY,
+                "next-uid": "new_mbox.next_uid == lpre(new_mbox.next_uid) + len(uids)",
+                "asc": "asc(new_msg_keys)",
+                "distinct-folders": "new_mbox.mailbox != inbox.mailbox and new_mbox != inbox",
+                "remaining-present": "forall(lambda j: implies(_i <= j and j < len(_it), _it[j] in inbox.mailbox.g_keys))",
+                "listing-ascending": "asc(_it)",
+                "src-distinct": "forall(lambda a, b: implies(0 <= a and a < b and b < len(ghost_src), ghost_src[a] != ghost_src[b]))",
+                "inbox-flags-kept": "forall(lambda s, k: mem(inbox.sequences, s, k) == mem(lpre(inbox.sequences), s, k), 'str', 'int')",
+            }},
+            1: {"invariant": {
+                "this-message": "forall(lambda s: implies(pos(_it, s) < _i, mem(sequences, s, new_msg_key) == mem(inbox.sequences, s, key)), 'str')",
+                "not-yet": "forall(lambda s: implies(not (pos(_it, s) < _i), mem(sequences, s, new_msg_key) == mem(lpre(sequences), s, new_msg_key)), 'str')",
+                "others-kept": "forall(lambda s, k: implies(k != new_msg_key, mem(sequences, s, k) == mem(lpre(sequences), s, k)), 'str', 'int')",
+                "inbox-flags-kept": "forall(lambda s, k: mem(inbox.sequences, s, k) == mem(lpre(inbox.sequences), s, k), 'str', 'int')",
+            }},
+        },
+        raises={},
+        modifies=["Mailbox.next_uid", "MH.g_keys", "MH.g_content", "Mailbox.sequences"],
+        is_async=True,
+        props=["C17"],
+        note="verified from `uids = []` (after the new mailbox has been created and fetched) up to the point where the collected lists are installed "
+             "in the new mailbox; Mailbox.create / get_mailbox before it and the installation + EXPUNGE notifications after it are not under contract",
+    )
+
+
+def declare_rename_folder(reg):
+    """RENAME of an ordinary mailbox (C17: nothing is left under the old name, the mailbox is reachable under the new one):
+    the step that re-keys one mailbox of the subtree in the table of active mailboxes, `_helper_rename_folder._do_rename_folder`."""
+    P = "asimap/mbox.py"
+    # the helper is a closure over `srvr` (= mbox.server of the enclosing function): an arbitrary server object here
+    reg.opaque_names["srvr"] = "ref:IMAPUserServer"
+    reg.context_managers.append((r"srvr\.active_mailboxes_lock", "lock"))
+    reg.dynamic_dispatch[r"srvr\.db\.execute\('UPDATE mailboxes SET name=\? WHERE id=\?', \(mbox_new_name, old_id\)\)"] = "db_rename_mailbox_row"
+    reg.contract("<sqlite>", "db_rename_mailbox_row", params={"sql": "str", "params": "tuple[str,int]"}, yields=True, trusted=True,
+                 note="A-DB: UPDATE mailboxes SET name=? WHERE id=?: the row keeps its id, UID state and flags rows (keyed by id); only the name column changes")
+    AM = "srvr.active_mailboxes"
+    reg.contract(
+        P, "_helper_rename_folder._do_rename_folder", params={"old_mbox": "ref:Mailbox", "old_id": "int", "mbox_new_name": "str"},
+        requires={
+            "active": f"old_mbox.name in {AM}",
+            "new-name-differs": "mbox_new_name != old_mbox.name",
+            "confined": "safe_rel(mbox_new_name)",
+        },
+        ensures={
+            # nothing is left under the old name: a later CREATE of the old name must not find the renamed mailbox's object
+            "old-name-gone": f"old(old_mbox.name) not in {AM}",
+            "reachable-under-new-name": f"mbox_new_name in {AM} and get({AM}, mbox_new_name) == old(get({AM}, old_mbox.name)) and get({AM}, mbox_new_name).name == mbox_new_name",
+            "others-untouched": f"forall(lambda k: implies(k != old(old_mbox.name) and k != mbox_new_name, (k in {AM}) == (k in old({AM})) and get({AM}, k) == get(old({AM}), k)), 'str')",
+        },
+        raises={"NoSuchMailboxError": None},
+        modifies=["IMAPUserServer.active_mailboxes", "Mailbox.name", "Mailbox.mailbox"],
+        is_async=True,
+        props=["C17"],
+        note="nested helper of _helper_rename_folder, extracted as it stands; its free variable `srvr` is an arbitrary IMAPUserServer; the enclosing function "
+             "(symlink, SQL LIKE query for the subtree, directory rename) is not under contract",
+    )
